@@ -40,13 +40,14 @@ Qed.
 
 Lemma step_sums w c g e : Sums g -> Sums (step w c g e).
 Proof.
-  intros S. destruct e as [|i|i o|i|i]; cbn [step].
+  intros S. destruct e as [|i|i o|i|n|i]; cbn [step].
   - destruct S as (A & B & C & D). unfold Sums. cbn [res g_host g_clu g_down ss]. rewrite !sumf_app. cbn. lia.
   - destruct (nth_error (ss g) i) as [s|] eqn:E; [|exact S]. destruct (ph s); try exact S.
-    destruct (can_create c (res g)); [destruct (tries c)|]; apply commit_sums; assumption.
+    destruct (can_create (g_max g) (res g)); [destruct (tries c)|]; apply commit_sums; assumption.
   - destruct (nth_error (ss g) i) as [s|] eqn:E; [|exact S]. destruct (ph s) as [|[|k]| |]; try exact S.
     apply commit_sums; assumption.
   - destruct (nth_error (ss g) i) as [s|] eqn:E; [|exact S]. destruct (ph s); try exact S. apply commit_sums; assumption.
+  - exact S.
   - destruct (nth_error (ss g) i) as [s|] eqn:E; [|exact S]. destruct (ph s); try exact S; apply commit_sums; assumption.
 Qed.
 
@@ -57,19 +58,13 @@ Lemma run_sums w c evs : Sums (run w c evs).
 Proof. apply fold_sums. unfold Sums; cbn. lia. Qed.
 
 (* ------------------------------------------------------------------ what a session holds, by phase *)
-Definition unit_res (c : cfg) : Z := if maxc c =? 0 then 0 else 1.
-
-Definition SessOk (w : sw) (c : cfg) (s : sess) : Prop :=
+(* (for the resource manager that always counts) *)
+Definition SessOk (w : sw) (s : sess) : Prop :=
   match ph s with
   | Accepted | Dialing _ => (acct_before w = false -> hs s = false) /\ h_res s = 0 /\ h_host s = 0 /\ h_clu s = 0 /\ h_down s = 1
-  | Live => hs s = true /\ h_res s = unit_res c /\ h_host s = 1 /\ h_clu s = 1 /\ h_down s = 1
+  | Live => hs s = true /\ h_res s = 1 /\ h_host s = 1 /\ h_clu s = 1 /\ h_down s = 1
   | Done => h_res s = 0 /\ h_host s = 0 /\ h_clu s = 0 /\ h_down s = 0
   end.
-
-Lemma bump_unit c : bump c 0 1 = unit_res c.
-Proof. unfold bump, unit_res. destruct (maxc c =? 0); reflexivity. Qed.
-Lemma bump_back c : bump c (unit_res c) (-1) = 0.
-Proof. unfold bump, unit_res. destruct (maxc c =? 0); reflexivity. Qed.
 
 (* the phase after a connect attempt does not depend on the accounting *)
 Lemma dial_phase w c s k o :
@@ -77,50 +72,37 @@ Lemma dial_phase w c s k o :
   match o with ConnOk => Live | ConnOkEarly => Done | _ => match k with O => Done | S _ => Dialing k end end.
 Proof. destruct o, k; reflexivity. Qed.
 
-(* ---- the two shapes, by computation *)
 Definition okb_all (o : outcome) : bool := true.
-Definition okb_no_early (o : outcome) : bool := match o with ConnOkEarly => false | _ => true end.
-
-Lemma bump_inv c : bump c (bump c 0 1) (-1) = 0.
-Proof. unfold bump. destruct (maxc c =? 0); reflexivity. Qed.
 
 Ltac dial_tac :=
-  cbv [dial undo set_res set_hs add_gauges set_ph close_d SessOk sw_repaired sw_old
-       acct_before gauges_before err_decreases err_undoes_gauges err_unsets_host timeout_finalizes
+  cbv [dial undo set_res set_hs add_gauges set_ph close_d SessOk sw_repaired bump
+       acct_before gauges_before err_decreases err_undoes_gauges err_unsets_host timeout_finalizes counts_unlimited
        ph hs h_res h_host h_clu h_down andb negb];
-  rewrite ?bump_inv, ?bump_unit, ?bump_back; repeat split; intros; try discriminate; try reflexivity; try lia.
+  repeat split; intros; try discriminate; try reflexivity; try lia.
 
-(* repaired shape: every outcome, the early close included *)
-Lemma dial_ok_repaired c s k o : ph s = Dialing (S k) -> SessOk sw_repaired c s -> SessOk sw_repaired c (dial sw_repaired c s k o).
+(* repaired shape: every outcome, the early close included, whatever the limit is at that moment *)
+Lemma dial_ok_repaired mx s k o : ph s = Dialing (S k) -> SessOk sw_repaired s -> SessOk sw_repaired (dial sw_repaired mx s k o).
 Proof.
   intros Hp Hs. unfold SessOk in Hs. rewrite Hp in Hs. destruct Hs as (_ & H2 & H3 & H4 & H5).
   destruct s as [p h r ho cl dn]. cbn [ph hs h_res h_host h_clu h_down] in *. subst.
   destruct o, k; dial_tac.
 Qed.
 
-(* shape before the repair: every outcome but the early close *)
-Lemma dial_ok_old c s k o : okb_no_early o = true -> ph s = Dialing (S k) -> SessOk sw_old c s -> SessOk sw_old c (dial sw_old c s k o).
-Proof.
-  intros Ho Hp Hs. unfold SessOk in Hs. rewrite Hp in Hs. destruct Hs as (H1 & H2 & H3 & H4 & H5).
-  specialize (H1 eq_refl).
-  destruct s as [p h r ho cl dn]. cbn [ph hs h_res h_host h_clu h_down] in *. subst.
-  destruct o, k; try discriminate Ho; dial_tac.
-Qed.
-
 Section Generic.
 Variable w : sw.
 Variable okb : outcome -> bool.
-Hypothesis Hdial : forall c s k o, okb o = true -> ph s = Dialing (S k) -> SessOk w c s -> SessOk w c (dial w c s k o).
+Hypothesis Hcnt : counts_unlimited w = true.
+Hypothesis Hdial : forall mx s k o, okb o = true -> ph s = Dialing (S k) -> SessOk w s -> SessOk w (dial w mx s k o).
 
 Definition allowed (e : event) : bool := match e with Dial _ o => okb o | _ => true end.
 
-Lemma finish_ok c s : ph s = Live -> SessOk w c s -> SessOk w c (finish c s).
+Lemma finish_ok mx s : ph s = Live -> SessOk w s -> SessOk w (finish w mx s).
 Proof.
   intros Hp Hs. unfold SessOk in Hs. rewrite Hp in Hs. destruct Hs as (H1 & H2 & H3 & H4 & H5).
-  unfold finish, SessOk. cbn. rewrite H1, H2, H3, H4, H5, bump_back. repeat split; lia.
+  unfold finish, SessOk, bump. cbn. rewrite Hcnt, H1, H2, H3, H4, H5. repeat split; lia.
 Qed.
 
-Lemma close_d_ok c s : (ph s = Accepted \/ exists k, ph s = Dialing k) -> SessOk w c s -> SessOk w c (close_d s).
+Lemma close_d_ok s : (ph s = Accepted \/ exists k, ph s = Dialing k) -> SessOk w s -> SessOk w (close_d s).
 Proof.
   intros Hp Hs. unfold SessOk in Hs.
   assert (H : (acct_before w = false -> hs s = false) /\ h_res s = 0 /\ h_host s = 0 /\ h_clu s = 0 /\ h_down s = 1)
@@ -128,18 +110,18 @@ Proof.
   destruct H as (H1 & H2 & H3 & H4 & H5). unfold close_d, SessOk. cbn. repeat split; lia.
 Qed.
 
-Definition AllOk (c : cfg) (g : gst) : Prop := Forall (SessOk w c) (ss g).
+Definition AllOk (g : gst) : Prop := Forall (SessOk w) (ss g).
 
 Lemma nth_Forall {A} (P : A -> Prop) l i x : Forall P l -> nth_error l i = Some x -> P x.
 Proof. intros H E. rewrite Forall_forall in H. apply H. eapply nth_error_In; eassumption. Qed.
 
-Lemma step_allok c g e : allowed e = true -> AllOk c g -> AllOk c (step w c g e).
+Lemma step_allok c g e : allowed e = true -> AllOk g -> AllOk (step w c g e).
 Proof.
-  intros Hw A. unfold AllOk in *. destruct e as [|i|i o|i|i]; cbn [step].
+  intros Hw A. unfold AllOk in *. destruct e as [|i|i o|i|n|i]; cbn [step].
   - cbn [ss]. apply Forall_app. split; [exact A|]. constructor; [|constructor]. unfold SessOk; cbn. repeat split; auto; lia.
   - destruct (nth_error (ss g) i) as [s|] eqn:E; [|exact A]. pose proof (nth_Forall _ _ _ _ A E) as Hs.
     destruct (ph s) eqn:Hp; try exact A.
-    destruct (can_create c (res g)); [destruct (tries c) eqn:Ht|]; unfold commit; cbn [ss]; apply Forall_upd; try exact A.
+    destruct (can_create (g_max g) (res g)); [destruct (tries c) eqn:Ht|]; unfold commit; cbn [ss]; apply Forall_upd; try exact A.
     + apply close_d_ok; [now left|exact Hs].
     + unfold SessOk, set_ph in *. rewrite Hp in Hs. cbn. exact Hs.
     + apply close_d_ok; [now left|exact Hs].
@@ -148,24 +130,25 @@ Proof.
     unfold commit; cbn [ss]; apply Forall_upd; [exact A|]. apply Hdial; try assumption.
   - destruct (nth_error (ss g) i) as [s|] eqn:E; [|exact A]. pose proof (nth_Forall _ _ _ _ A E) as Hs.
     destruct (ph s) eqn:Hp; try exact A. unfold commit; cbn [ss]; apply Forall_upd; [exact A|]. now apply finish_ok.
+  - exact A.
   - destruct (nth_error (ss g) i) as [s|] eqn:E; [|exact A]. pose proof (nth_Forall _ _ _ _ A E) as Hs.
     destruct (ph s) eqn:Hp; try exact A; unfold commit; cbn [ss]; apply Forall_upd; try exact A.
     + apply close_d_ok; [now left|exact Hs].
     + now apply finish_ok.
 Qed.
 
-Lemma fold_allok c evs : forall g, forallb allowed evs = true -> AllOk c g -> AllOk c (fold_left (step w c) evs g).
+Lemma fold_allok c evs : forall g, forallb allowed evs = true -> AllOk g -> AllOk (fold_left (step w c) evs g).
 Proof.
   induction evs as [|e evs IH]; cbn; intros g Hn A; [exact A|].
   apply andb_true_iff in Hn. destruct Hn as [He Hn]. apply IH; [exact Hn|]. now apply step_allok.
 Qed.
 
-Lemma run_allok c evs : forallb allowed evs = true -> AllOk c (run w c evs).
+Lemma run_allok c evs : forallb allowed evs = true -> AllOk (run w c evs).
 Proof. intros Hn. apply fold_allok; [assumption|constructor]. Qed.
 
 (* sums of well-formed sessions are counts *)
-Lemma sums_counts c l : Forall (SessOk w c) l ->
-  sumf h_res l = unit_res c * count is_live l /\ sumf h_host l = count is_live l /\ sumf h_clu l = count is_live l /\
+Lemma sums_counts l : Forall (SessOk w) l ->
+  sumf h_res l = count is_live l /\ sumf h_host l = count is_live l /\ sumf h_clu l = count is_live l /\
   sumf h_down l = count (fun s => negb (is_done s)) l /\
   0 <= count is_live l /\ 0 <= count (fun s => negb (is_done s)) l.
 Proof.
@@ -178,9 +161,6 @@ Proof.
   - destruct Hs as (H2 & H3 & H4 & H5). rewrite H2, H3, H4, H5. repeat split; lia.
 Qed.
 
-Lemma unit_res_bounds c : 0 <= unit_res c <= 1.
-Proof. unfold unit_res. destruct (maxc c =? 0); lia. Qed.
-
 (* the statement of c10_l4_conserved *)
 Lemma l4_conserved c evs : forallb allowed evs = true ->
   let g := run w c evs in
@@ -190,18 +170,20 @@ Lemma l4_conserved c evs : forallb allowed evs = true ->
   (* the counters are the sums of what the sessions hold, hence ... *)
   res g = sumf h_res (ss g) /\ g_host g = sumf h_host (ss g) /\ g_clu g = sumf h_clu (ss g) /\ g_down g = sumf h_down (ss g) /\
   (* ... equal to the number of sessions that are relaying / not over, never negative, and zero when idle *)
-  res g = unit_res c * count is_live (ss g) /\ g_host g = count is_live (ss g) /\ g_clu g = count is_live (ss g) /\
+  res g = count is_live (ss g) /\ g_host g = count is_live (ss g) /\ g_clu g = count is_live (ss g) /\
   g_down g = count (fun s => negb (is_done s)) (ss g) /\
   0 <= res g /\ 0 <= g_host g /\ 0 <= g_clu g /\ 0 <= g_down g /\
   (forallb is_done (ss g) = true -> res g = 0 /\ g_host g = 0 /\ g_clu g = 0 /\ g_down g = 0).
 Proof.
   intros Hn g. pose proof (run_sums w c evs) as (S1 & S2 & S3 & S4). pose proof (run_allok c evs Hn) as A.
-  fold g in S1, S2, S3, S4, A. unfold AllOk in A. pose proof (sums_counts c _ A) as (C1 & C2 & C3 & C4 & C5 & C6).
-  pose proof (unit_res_bounds c) as U.
+  fold g in S1, S2, S3, S4, A. unfold AllOk in A. pose proof (sums_counts _ A) as (C1 & C2 & C3 & C4 & C5 & C6).
   split.
-  { eapply Forall_impl; [|exact A]. intros s Hs. unfold SessOk, is_done in *.
-    destruct (ph s); destruct Hs as (H1 & H2 & H3 & H4); try (destruct H4 as [H4 H5]); rewrite ?H2, ?H3, ?H4, ?H5, ?H1;
-      repeat split; try lia; try discriminate. }
+  { eapply Forall_impl; [|exact A]. intros s Hs. unfold SessOk in Hs. unfold is_done.
+    destruct (ph s).
+    - destruct Hs as (_ & H2 & H3 & H4 & H5). repeat split; intros; try lia; try discriminate.
+    - destruct Hs as (_ & H2 & H3 & H4 & H5). repeat split; intros; try lia; try discriminate.
+    - destruct Hs as (_ & H2 & H3 & H4 & H5). repeat split; intros; try lia; try discriminate.
+    - destruct Hs as (H2 & H3 & H4 & H5). repeat split; intros; try lia; try discriminate. }
   repeat (split; [first [assumption | lia | nia]|]).
   intros Hd.
   assert (Z1 : count is_live (ss g) = 0 /\ count (fun s => negb (is_done s)) (ss g) = 0).
@@ -220,77 +202,92 @@ Proof. apply sumf_app. Qed.
 Lemma count_nonneg f l : 0 <= count f l.
 Proof. unfold count. induction l as [|s l IH]; cbn; [lia|]. destruct (f s); lia. Qed.
 
-Definition SerInv (c : cfg) (g : gst) : Prop :=
-  count is_dialing (ss g) <= 1 /\ count is_live (ss g) + count is_dialing (ss g) <= maxc c.
-
-Lemma step_serinv c g e : 0 < maxc c -> AllOk c g -> Sums g ->
-  (match e with Admit _ => count is_dialing (ss g) =? 0 | _ => true end) = true ->
-  SerInv c g -> SerInv c (step w c g e).
+(* the limit stays what it was configured to when no update happens *)
+Lemma step_max c g e : is_setmax e = false -> g_max (step w c g e) = g_max g.
 Proof.
-  intros Hm A S Hser [I1 I2]. unfold SerInv.
-  pose proof (sums_counts c _ A) as (C1 & _ & _ & _ & C5 & _).
-  assert (Hres : res g = count is_live (ss g)).
-  { destruct S as (S1 & _). rewrite S1, C1. unfold unit_res. destruct (maxc c =? 0) eqn:E; lia. }
-  destruct e as [|i|i o|i|i]; cbn [step].
+  intros He. destruct e as [|i|i o|i|n|i]; cbn [step]; try reflexivity; try discriminate;
+    repeat match goal with |- context [match ?x with _ => _ end] => destruct x end; reflexivity.
+Qed.
+
+Definition SerInv (g : gst) : Prop :=
+  count is_dialing (ss g) <= 1 /\ count is_live (ss g) + count is_dialing (ss g) <= g_max g.
+
+Lemma step_serinv c g e : 0 < g_max g -> is_setmax e = false -> AllOk g -> Sums g ->
+  (match e with Admit _ => count is_dialing (ss g) =? 0 | _ => true end) = true ->
+  SerInv g -> SerInv (step w c g e).
+Proof.
+  intros Hm Hnm A S Hser [I1 I2]. unfold SerInv. rewrite (step_max c g e Hnm).
+  pose proof (sums_counts _ A) as (C1 & _ & _ & _ & C5 & _).
+  assert (Hres : res g = count is_live (ss g)) by (destruct S as (S1 & _); now rewrite S1, C1).
+  destruct e as [|i|i o|i|n|i]; cbn [step]; try discriminate Hnm.
   - cbn [ss]. rewrite !count_app.
     replace (count is_dialing [mkS Accepted false 0 0 0 1]) with 0 by reflexivity.
     replace (count is_live [mkS Accepted false 0 0 0 1]) with 0 by reflexivity. lia.
   - destruct (nth_error (ss g) i) as [s|] eqn:E; [|split; assumption]. destruct (ph s) eqn:Hp; try (split; assumption).
     apply Z.eqb_eq in Hser.
-    destruct (can_create c (res g)) eqn:Hc; [destruct (tries c) eqn:Ht|]; unfold commit; cbn [ss];
+    destruct (can_create (g_max g) (res g)) eqn:Hc; [destruct (tries c) eqn:Ht|]; unfold commit; cbn [ss];
       rewrite !(count_upd _ _ _ _ _ E); unfold is_live, is_dialing, close_d, set_ph in *; cbn [ph]; rewrite Hp; try lia.
     all: unfold can_create in Hc; lia.
   - destruct (nth_error (ss g) i) as [s|] eqn:E; [|split; assumption]. destruct (ph s) as [|[|k]| |] eqn:Hp; try (split; assumption).
     unfold commit; cbn [ss]; rewrite !(count_upd _ _ _ _ _ E). unfold is_live, is_dialing in *. rewrite Hp.
-    rewrite (dial_phase w c s k o). destruct o, k; lia.
+    rewrite (dial_phase w (g_max g) s k o). destruct o, k; lia.
   - destruct (nth_error (ss g) i) as [s|] eqn:E; [|split; assumption]. destruct (ph s) eqn:Hp; try (split; assumption).
     unfold commit; cbn [ss]; rewrite !(count_upd _ _ _ _ _ E). unfold is_live, is_dialing, finish in *. cbn [ph]. rewrite Hp. lia.
   - destruct (nth_error (ss g) i) as [s|] eqn:E; [|split; assumption]. destruct (ph s) eqn:Hp; try (split; assumption);
     unfold commit; cbn [ss]; rewrite !(count_upd _ _ _ _ _ E); unfold is_live, is_dialing, finish, close_d in *; cbn [ph]; rewrite Hp; lia.
 Qed.
 
-Lemma fold_serinv c evs : 0 < maxc c -> forall g,
-  forallb allowed evs = true -> serial_from w c g evs = true -> AllOk c g -> Sums g -> SerInv c g ->
-  SerInv c (fold_left (step w c) evs g).
+Lemma fold_serinv c evs : forall g, 0 < g_max g ->
+  forallb allowed evs = true -> no_setmax evs = true -> serial_from w c g evs = true -> AllOk g -> Sums g -> SerInv g ->
+  SerInv (fold_left (step w c) evs g) /\ g_max (fold_left (step w c) evs g) = g_max g.
 Proof.
-  intros Hm. induction evs as [|e evs IH]; cbn; intros g Hn Hs A S I; [exact I|].
+  induction evs as [|e evs IH]; cbn; intros g Hm Hn Hx Hs A S I; [split; [exact I|reflexivity]|].
   apply andb_true_iff in Hn. destruct Hn as [He Hn].
+  apply andb_true_iff in Hx. destruct Hx as [Hx1 Hx2]. apply negb_true_iff in Hx1.
   apply andb_true_iff in Hs. destruct Hs as [Hs1 Hs2].
-  apply IH; try assumption.
+  pose proof (step_max c g e Hx1) as Hmx.
+  destruct (IH (step w c g e)) as [J1 J2]; try assumption.
+  - now rewrite Hmx.
   - now apply step_allok.
   - now apply step_sums.
   - apply step_serinv; assumption.
+  - split; [exact J1|]. now rewrite J2.
 Qed.
 
-(* with serialised admissions the resource never exceeds max_connections *)
-Lemma l4_threshold_bound c evs : 0 < maxc c -> forallb allowed evs = true ->
-  serial_from w c g0 evs = true -> res (run w c evs) <= maxc c.
+(* with serialised admissions and no change of the limit the resource never exceeds max_connections *)
+Lemma l4_threshold_bound c evs : 0 < maxc c -> forallb allowed evs = true -> no_setmax evs = true ->
+  serial_from w c (g0 c) evs = true -> res (run w c evs) <= maxc c.
 Proof.
-  intros Hm Hn Hs.
-  assert (I : SerInv c (run w c evs)).
-  { apply fold_serinv; try assumption; [constructor|unfold Sums; cbn; lia|unfold SerInv, count; cbn; lia]. }
-  pose proof (run_sums w c evs) as (S1 & _). pose proof (run_allok c evs Hn) as A.
-  pose proof (sums_counts c _ A) as (C1 & _). destruct I as [I1 I2].
-  pose proof (count_nonneg is_dialing (ss (run w c evs))).
-  rewrite S1, C1. unfold unit_res. destruct (maxc c =? 0); lia.
+  intros Hm Hn Hx Hs.
+  destruct (fold_serinv c evs (g0 c)) as [I Imax]; try assumption; try (cbn; assumption).
+  - constructor.
+  - unfold Sums; cbn; lia.
+  - unfold SerInv, count; cbn; lia.
+  - fold (run w c evs) in I, Imax. cbn [g0 g_max] in Imax.
+    pose proof (run_sums w c evs) as (S1 & _). pose proof (run_allok c evs Hn) as A.
+    pose proof (sums_counts _ A) as (C1 & _). destruct I as [I1 I2].
+    pose proof (count_nonneg is_dialing (ss (run w c evs))).
+    rewrite S1, C1. lia.
 Qed.
 
-(* the admission decision itself, in every reachable state: refused exactly when the resource has reached the limit *)
-Lemma l4_admission c evs i s : 0 < maxc c -> forallb allowed evs = true ->
+(* the admission decision itself, in every reachable state (whatever the history did to the limit): refused exactly when the
+   resource has reached the limit in force *)
+Lemma l4_admission c evs i s :
   let g := run w c evs in
+  forallb allowed evs = true -> 0 < g_max g ->
   nth_error (ss g) i = Some s -> ph s = Accepted ->
   let g' := step w c g (Admit i) in
-  (res g < maxc c -> overflows g' = overflows g /\
+  (res g < g_max g -> overflows g' = overflows g /\
        exists s', nth_error (ss g') i = Some s' /\ ph s' = match tries c with O => Done | S _ => Dialing (tries c) end) /\
-  (maxc c <= res g -> overflows g' = S (overflows g) /\ exists s', nth_error (ss g') i = Some s' /\ ph s' = Done).
+  (g_max g <= res g -> overflows g' = S (overflows g) /\ exists s', nth_error (ss g') i = Some s' /\ ph s' = Done).
 Proof.
-  intros Hm Hn g E Hp g'.
+  intros g Hn Hm E Hp g'.
   assert (H0 : 0 <= res g) by (pose proof (l4_conserved c evs Hn) as L; cbn zeta in L; fold g in L; tauto).
   subst g'. cbn [step]. rewrite E, Hp. unfold can_create.
   split; intros Hr.
-  - replace ((maxc c =? 0) || (res g <? 0) || (res g <? maxc c)) with true by lia.
+  - replace ((g_max g =? 0) || (res g <? 0) || (res g <? g_max g)) with true by lia.
     destruct (tries c) eqn:Ht; unfold commit; cbn [overflows ss]; (split; [lia|]); eexists; (split; [eapply nth_upd_same; exact E|reflexivity]).
-  - replace ((maxc c =? 0) || (res g <? 0) || (res g <? maxc c)) with false by lia.
+  - replace ((g_max g =? 0) || (res g <? 0) || (res g <? g_max g)) with false by lia.
     unfold commit; cbn [overflows ss]. split; [lia|]. eexists; (split; [eapply nth_upd_same; exact E|reflexivity]).
 Qed.
 
@@ -298,22 +295,14 @@ End Generic.
 
 (* ------------------------------------------------------------------ the repaired shape: every history *)
 Lemma all_allowed evs : forallb (allowed okb_all) evs = true.
-Proof. apply forallb_forall. intros [|i|i o|i|i] _; reflexivity. Qed.
+Proof. apply forallb_forall. intros [|i|i o|i|n|i] _; reflexivity. Qed.
 
-Definition l4_conserved_repaired c evs := l4_conserved sw_repaired okb_all (fun c s k o _ => dial_ok_repaired c s k o) c evs (all_allowed evs).
-Definition l4_admission_repaired c evs i s Hm := l4_admission sw_repaired okb_all (fun c s k o _ => dial_ok_repaired c s k o) c evs i s Hm (all_allowed evs).
-Definition l4_threshold_bound_repaired c evs Hm := l4_threshold_bound sw_repaired okb_all (fun c s k o _ => dial_ok_repaired c s k o) c evs Hm (all_allowed evs).
+Definition l4_conserved_repaired c evs := l4_conserved sw_repaired okb_all eq_refl (fun mx s k o _ => dial_ok_repaired mx s k o) c evs (all_allowed evs).
+Definition l4_admission_repaired c evs i s := l4_admission sw_repaired okb_all eq_refl (fun mx s k o _ => dial_ok_repaired mx s k o) c evs i s (all_allowed evs).
+Definition l4_threshold_bound_repaired c evs Hm := l4_threshold_bound sw_repaired okb_all eq_refl (fun mx s k o _ => dial_ok_repaired mx s k o) c evs Hm (all_allowed evs).
 
-(* ------------------------------------------------------------------ the shape before the repair *)
-Lemma allowed_no_early evs : no_early evs = true -> forallb (allowed okb_no_early) evs = true.
-Proof.
-  unfold no_early. rewrite !forallb_forall. intros H e He. specialize (H e He).
-  destruct e as [|i|i o|i|i]; try reflexivity. destruct o; cbn in *; try reflexivity; discriminate.
-Qed.
-
-Definition l4_conserved_old c evs (Hn : no_early evs = true) := l4_conserved sw_old okb_no_early dial_ok_old c evs (allowed_no_early evs Hn).
-
-(* a close event handled before Connect returns leaks the unit taken afterwards *)
+(* ------------------------------------------------------------------ the shapes before the repairs (refuted) *)
+(* accounting after Connect (before fix 68bc5586c): a close event handled before Connect returns leaks the unit taken afterwards *)
 Lemma l4_early_close_leaks_old :
   let g := run sw_old (mkCfg 1 1) [Accept; Admit 0; Dial 0 ConnOkEarly] in
   forallb is_done (ss g) = true /\ res g = 1 /\ g_host g = 1 /\ g_clu g = 0 /\ g_down g = 0.
@@ -328,11 +317,20 @@ Proof.
   destruct (H D) as [R _]. vm_compute in R. discriminate R.
 Qed.
 
+(* no counting while max == 0 (before fix c8b45b4d7): a limit set at run time finds the open connection uncounted, and its
+   close takes the counter below zero *)
+Lemma l4_nocount_statement_refuted :
+  ~ (forall c evs, 0 <= res (run sw_nocount c evs)).
+Proof.
+  intros H. specialize (H (mkCfg 0 1) [Accept; Admit 0%nat; Dial 0%nat ConnOk; SetMax 3; DownClose 0%nat]).
+  vm_compute in H. apply H. reflexivity.
+Qed.
+
 (* two admissions between CanCreate and Increase: max_connections = 1 admits two *)
 Lemma l4_threshold_refuted :
-  ~ (forall c evs, 0 < maxc c -> res (run sw_repaired c evs) <= maxc c).
+  ~ (forall c evs, 0 < maxc c -> no_setmax evs = true -> res (run sw_repaired c evs) <= maxc c).
 Proof.
   intros H. specialize (H (mkCfg 1 1) [Accept; Accept; Admit 0%nat; Admit 1%nat; Dial 0%nat ConnOk; Dial 1%nat ConnOk]).
   assert (R : res (run sw_repaired (mkCfg 1 1) [Accept; Accept; Admit 0%nat; Admit 1%nat; Dial 0%nat ConnOk; Dial 1%nat ConnOk]) = 2) by (vm_compute; reflexivity).
-  rewrite R in H. cbn in H. specialize (H eq_refl). lia.
+  rewrite R in H. cbn in H. specialize (H eq_refl eq_refl). lia.
 Qed.
